@@ -159,7 +159,20 @@ class Sched:
                 if self.on_step is not None:
                     self.on_step(self, t)
         finally:
-            if not all(t.done for t in self.threads):
+            if outcome == "stuck":
+                # do NOT unwind with an injected exception here: a thread parked between the body of a
+                # `with lock:` block and the call of __exit__ would leave the real lock held for ever.
+                # Let every thread run on freely (no more switch points) so that all real primitives are
+                # released in the ordinary way; the results of this run are discarded by the caller.
+                self.quiet = True
+                pending = [t for t in self.threads if not t.done]
+                for t in pending:
+                    if t is not self._stuck_thread:
+                        t.go.release()
+                for t in pending:
+                    if not self.control.acquire(timeout=300):
+                        break
+            elif not all(t.done for t in self.threads):
                 self.abort = True
                 self.quiet = False
                 pending = [t for t in self.threads if not t.done]
